@@ -33,7 +33,13 @@ var handler fox.HandlerFunc = func(c fox.Context) { ran = true }
 type spec struct {
 	Pattern string `json:"p"`
 	Ignore  bool   `json:"ignore,omitempty"`
+	// Adapter: the handler is a net/http handler wrapped with fox.WrapF (1) or fox.WrapH (2); only used on
+	// wildcard-free patterns (with parameters the adapters attach them to the request, which allocates by design)
+	Adapter int `json:"adapter,omitempty"`
 }
+
+var stdHandler = http.HandlerFunc(func(http.ResponseWriter, *http.Request) { ran = true })
+var adapted = [...]fox.HandlerFunc{handler, fox.WrapF(stdHandler), fox.WrapH(stdHandler)}
 
 // Case is a replayable measurement: a route set and the served requests measured as one cycle.
 type Case struct {
@@ -49,6 +55,7 @@ type poolDef struct {
 	hosts    []string
 	k        int
 	always   []string
+	adapters bool // every pattern also registered through WrapF and WrapH
 }
 
 func fanStatics(n int) []string {
@@ -114,6 +121,8 @@ func pools(quick bool) []poolDef {
 	ps = append(ps, poolDef{name: "dots", patterns: []string{"/{p0}/{p1}/", "/*{c0}/", "/a/{p1}/", "/{p0}/a", "/a/*{c1}/b/", "/{p0}/{p1}"}, paths: gen.Paths([]string{"a", ".", "..", "b"}, 3), hosts: []string{""}, k: 2})
 	// escaped: request targets whose escaped form differs from the decoded one (RawPath set)
 	ps = append(ps, poolDef{name: "escaped", patterns: []string{"/{p0}", "/{p0}/{p1}", "/*{c0}", "/a/{p1}/", "/{p0}/a"}, paths: gen.Paths([]string{"a", "a%2Fb", "%41", "a%3Bb"}, 2), hosts: []string{""}, k: 2})
+	// adapters: wildcard-free routes whose handler is a net/http handler wrapped by the library's own adapters
+	ps = append(ps, poolDef{name: "adapters", patterns: []string{"/a", "/a/", "/a/b", "/a/b/", "a.b/a", "a.b/a/"}, paths: []string{"/a", "/a/", "/a/b", "/a/b/"}, hosts: []string{"", "a.b"}, k: 2, adapters: true})
 	return ps
 }
 
@@ -135,7 +144,7 @@ func build(set []spec, hosts, paths []string) (*fox.Router, []served, error) {
 		if s.Ignore {
 			opts = append(opts, fox.WithIgnoreTrailingSlash(true))
 		}
-		if _, err := f.Handle("GET", s.Pattern, handler, opts...); err != nil {
+		if _, err := f.Handle("GET", s.Pattern, adapted[s.Adapter], opts...); err != nil {
 			return nil, nil, err
 		}
 		rr = append(rr, &ref.RRoute{Pat: ref.MustParse(s.Pattern), ID: i + 1, Ignore: s.Ignore})
@@ -272,6 +281,9 @@ func run(c *mc.Ctx, r *mc.Result) {
 		var specs []spec
 		for _, p := range pd.patterns {
 			specs = append(specs, spec{Pattern: p}, spec{Pattern: p, Ignore: true})
+			if pd.adapters {
+				specs = append(specs, spec{Pattern: p, Adapter: 1}, spec{Pattern: p, Ignore: true, Adapter: 1}, spec{Pattern: p, Adapter: 2}, spec{Pattern: p, Ignore: true, Adapter: 2})
+			}
 		}
 		r.Bounds["pool."+pd.name] = fmt.Sprintf("%d patterns x {plain, ignore-slash}, subsets<=%d (+%d fixed), %d paths x %d hosts; served requests measured one by one and as one interleaved cycle", len(pd.patterns), pd.k, len(pd.always), len(pd.paths), len(pd.hosts))
 		stopped := false
